@@ -39,6 +39,10 @@ pub struct Features {
     /// visibility only: another module with the same file stem in a different directory exports the same name publicly
     #[serde(default)]
     pub stem_collision: bool,
+    /// ambiguous layouts only: the preferred candidate appears on disk *after* the server first analysed the entry; the
+    /// entry is then edited, and what the long-lived server loads is compared with the compiler's view of the final tree
+    #[serde(default)]
+    pub late_candidate: bool,
 }
 
 #[derive(Serialize, Deserialize, Clone, Debug)]
@@ -234,6 +238,7 @@ pub fn random_features(seed: u64) -> Features {
         hidden_item: item_name(item_kind, &format!("hidden_item_{c}")),
         n: r.range(1, 500),
         entry_spelling: entry_spelling.clone(),
+        late_candidate: cat == "ambiguous" && r.chance(1, 2),
         dep_open: r.chance(1, 4),
         // (entry-level, plainly spelled imports only: one question at a time)
         stem_collision: cat == "visibility" && prefix == "plain" && entry_spelling == "abs" && (placement == "entry-root" || placement == "entry-nested") && r.chance(1, 2),
@@ -514,7 +519,7 @@ pub fn cli_view(root: &Path, scn: &Scn, hash_seed: u64, with_check: bool) -> Cli
         }
         "via-symlink" => {
             // the same tree reached through a symbolic link to its root directory
-            let link = root.with_file_name("t-link");
+            let link = root.with_file_name(format!("{}-link", root.file_name().map(|n| n.to_string_lossy().to_string()).unwrap_or_default()));
             let _ = std::fs::remove_file(&link);
             let _ = std::os::unix::fs::symlink(root, &link);
             link.join(&scn.entry).to_string_lossy().to_string()
@@ -540,7 +545,7 @@ pub fn cli_view(root: &Path, scn: &Scn, hash_seed: u64, with_check: bool) -> Cli
             }
             Err(e) => {
                 // an unreadable target: the message names the path the compiler resolved to
-                let msg = e.message.replace(&format!("{root_s}/"), "").replace(&format!("{}/", root_s.replace("/t", "/t-link")), "");
+                let msg = e.message.replace(&format!("{root_s}-link/"), "").replace(&format!("{root_s}/"), "");
                 for p in &tree_paths {
                     if msg.contains(&format!("'{p}'")) {
                         v.loaded.insert(p.clone());
@@ -579,7 +584,8 @@ pub fn lsp_view(root: &Path, scn: &Scn, hash_seed: u64) -> LspView {
     let root = root.to_path_buf();
     let entry = scn.entry.clone();
     let importer = scn.importer.clone();
-    let dep_open = scn.f.dep_open;
+    let dep_open = scn.f.dep_open && !scn.f.late_candidate;
+    let late_candidate = scn.f.late_candidate;
     let dep_target = scn.label_target.clone();
     let r = par::instance_timeout(hash_seed, None, std::time::Duration::from_secs(30), move || {
         let mut v = LspView::default();
@@ -619,7 +625,21 @@ pub fn lsp_view(root: &Path, scn: &Scn, hash_seed: u64) -> LspView {
             }
         }
         let uri = format!("file://{}", entry_abs.display());
-        match sys.deliver_now(&lsp::did_open(&uri, 1, &text), LSP_STEP_BOUND) {
+        // two-phase history: the preferred candidate is absent when the entry is first analysed ...
+        let late_file = if late_candidate { dep_target.as_ref().map(|t| root_c.join(t)) } else { None };
+        let late_bytes = late_file.as_ref().and_then(|p| std::fs::read(p).ok());
+        if let (Some(p), Some(_)) = (&late_file, &late_bytes) {
+            let _ = std::fs::remove_file(p);
+            let _ = sys.deliver_now(&lsp::did_open(&uri, 1, &text), LSP_STEP_BOUND);
+            let _ = sys.drain_frames();
+            // ... then it appears (for ambiguous layouts the other candidates stay) and the entry document is edited
+            if let Some(parent) = p.parent() {
+                let _ = std::fs::create_dir_all(parent);
+            }
+            let _ = std::fs::write(p, late_bytes.as_deref().unwrap_or_default());
+        }
+        let first_msg = if late_file.is_some() && late_bytes.is_some() { lsp::did_change(&uri, 2, &text) } else { lsp::did_open(&uri, 1, &text) };
+        match sys.deliver_now(&first_msg, LSP_STEP_BOUND) {
             Settle::Quiescent => {}
             Settle::Dead(d) => {
                 v.dead = Some(d);
@@ -710,9 +730,10 @@ fn shape(f: &Features) -> String {
         f.target_dirs.len(),
         if f.prefix == "crate" { f.proj } else { 0 },
         format!(
-            "{}{}{}",
+            "{}{}{}{}",
             if f.entry_spelling.is_empty() || f.entry_spelling == "abs" { String::new() } else { format!("|entry={}", f.entry_spelling) },
             if f.dep_open { "|dep-open" } else { "" },
+            if f.late_candidate { "|late-candidate" } else { "" },
             if f.stem_collision { "|stem-collision" } else { "" }
         )
     )
@@ -779,7 +800,9 @@ fn mk(scn: &Scn, class: &str, outcome: &str, detail: String) -> Finding {
 }
 
 pub fn run_case(scn: &Scn, scratch: &Path, fakebin: &Path) -> CaseOut {
-    let root = scratch.join("t");
+    // one directory name per scenario: code under test that (wrongly) keeps process-global state keyed by path must not
+    // make one case's verdict depend on which cases ran before it in the same worker
+    let root = scratch.join(format!("t{:08x}", fnv(serde_json::to_string(&scn.f).unwrap_or_default().as_bytes()) & 0xffff_ffff));
     scn.tree.materialise(&root, Some(&scn.order));
     let mut out = CaseOut { findings: Vec::new(), fs_faults: BTreeMap::new(), lsp_steps: 0, subprocs: 0, watchdog: false, notes: BTreeMap::new() };
     if ["dir-as-file", "dangling-symlink", "symlink-loop", "non-utf8", "missing", "cycle2", "cycle3", "self-import", "symlink"].contains(&scn.f.layout.as_str()) || scn.f.layout.starts_with("amb:") {
@@ -994,6 +1017,11 @@ pub fn minimise(scn: &Scn, class: &str, outcome: &str, scratch: &Path, fakebin: 
         if f.dep_open {
             let mut c = f.clone();
             c.dep_open = false;
+            cands.push(c);
+        }
+        if f.late_candidate {
+            let mut c = f.clone();
+            c.late_candidate = false;
             cands.push(c);
         }
         if f.stem_collision {
